@@ -4,6 +4,7 @@ set -e
 cd "$(dirname "$0")"
 export CARGO_NET_OFFLINE=true
 mkdir -p .cache/sx-target out evidence
+ln -sfn "${VERIF_REPO:-/repo}" .cache/repo
 (cd sx && cargo build --offline --release --target-dir ../.cache/sx-target 2>&1 | tail -3)
 .cache/sx-target/release/sx selftest
 if [ -x lib/kani_setup.sh ]; then lib/kani_setup.sh; fi
